@@ -41,6 +41,15 @@ impl Ctx {
     let findings = load_findings(&verif);
     let _ = std::fs::create_dir_all(verif.join("evidence"));
     let _ = std::fs::create_dir_all(verif.join("replays"));
+    if std::env::args().nth(3).as_deref() != Some("--replay") {
+      if let Ok(rd) = std::fs::read_dir(verif.join("replays")) {
+        for e in rd.flatten() {
+          if e.file_name().to_string_lossy().starts_with(&format!("{}-", id)) {
+            let _ = std::fs::remove_file(e.path());
+          }
+        }
+      }
+    }
     Ctx {
       id: id.to_string(),
       tier: tier.to_string(),
